@@ -10,7 +10,7 @@ import ast
 from dataclasses import dataclass
 from typing import Any, Dict, List, Optional, Tuple
 
-from .model import Program, CallGraph, FuncInfo, ClassInfo, TypeEnv, strip_opt, union, ANY, NONE, t_cls, t_opt
+from .model import Program, CallGraph, FuncInfo, ClassInfo, TypeEnv, strip_opt, union, ANY, NONE, t_cls, t_opt, iter_own_nodes
 from .flow import Flow, atomic_facts, same_expr
 
 YES, NO, MAYBE = 'yes', 'no', 'maybe'
@@ -177,6 +177,24 @@ class Abs:
                 t = self._narrow(fn, t, e, cond, pol)
         return t
 
+    def _property_of(self, fn: FuncInfo, e: ast.Attribute, node) -> Optional[FuncInfo]:
+        """The property method that `e` (= <base>.<attr>) reads, when <base> is an object of one package class that nothing subclasses
+        with another definition of the property."""
+        try:
+            bt = strip_opt(self.type_at(fn, e.value, node))
+        except Exception:       # pylint: disable=broad-except
+            return None
+        if bt[0] != 'cls' or bt[1] not in self.prog.classes:
+            return None
+        c = self.prog.classes[bt[1]]
+        m = self.prog.lookup_method(c, e.attr)
+        if m is None or not m.is_property or e.attr in self.prog.class_fields(c):
+            return None
+        for sub in self.prog.classes.values():
+            if sub is not c and self.prog.is_subclass(sub.fq, c.fq) and e.attr in sub.methods and sub.methods[e.attr] is not m:
+                return None
+        return m
+
     def _single_def(self, fn: FuncInfo, name: str) -> Optional[ast.AST]:
         return self.cg.env(fn).single_def(name)
 
@@ -321,6 +339,16 @@ class Abs:
                 cls = next(c[1] for c in callees if isinstance(c, tuple) and c[0] == 'ctor')
                 v.none = NO
                 if not any(self.prog.lookup_method(cls, m) for m in ('__bool__', '__len__')):
+                    v.truthy = YES
+        elif isinstance(e, ast.Attribute) and depth < 3 and self._property_of(fn, e, node) is not None:
+            # a property of a package class: what every `return` of it hands back
+            pm = self._property_of(fn, e, node)
+            rets = [x for x in iter_own_nodes(pm.node) if isinstance(x, ast.Return)]
+            if rets and all(x.value is not None for x in rets) and not any(isinstance(x, (ast.Yield, ast.YieldFrom)) for x in iter_own_nodes(pm.node)):
+                vals = [self.at(pm, x.value, x.value, depth + 1) for x in rets]
+                if all(v_.none == NO for v_ in vals):
+                    v.none = NO
+                if all(v_.truthy == YES for v_ in vals):
                     v.truthy = YES
         elif isinstance(e, (ast.Attribute, ast.Name)):
             sym = self.prog.resolve_expr_symbol(fn.module, e) if not (
